@@ -148,6 +148,11 @@ def expand_subgraph(n):
         return [dict(name=nm + ".a", kind="c1", args=[x], valid="V", op=0, id=i * 10 + 1),
                 dict(name=nm + ".b", kind="c1", args=[cx], valid="V", op=0, id=i * 10 + 1),
                 dict(name=nm, kind="c2", args=[nm + ".a", nm + ".b"], valid="VV", op=p % 3, id=i * 10 + 2)]
+    if g == "SgFailT":
+        # fault target first, then an independent scheduler-scripted sibling (also driven by x), then both combined
+        return [dict(name=nm + ".a", kind="c1", args=[x], valid="V", op=0, id=i * 10 + 1),
+                dict(name=nm + ".t", kind="timer1", args=[x], id=i * 10 + 2, start_sample=True),       # (a child graph: sampled at start, F2)
+                dict(name=nm, kind="c2", args=[nm + ".a", nm + ".t"], valid="UU", op=0, id=i * 10 + 3)]
     if g == "SgFail":
         return [dict(name=nm + ".a", kind="c1", args=[x], valid="V", op=0, id=i * 10 + 1),
                 dict(name=nm + ".b", kind="accum", args=[nm + ".a"], id=i * 10 + 2),
